@@ -6,7 +6,7 @@ import check_net
 def run(ctx):
     n = 60000 if ctx.tier == "thorough" else 12000
     known = check_net.known_for("C06", {"InRangeLogDist": "Trace_InRange_LogDist.cfg"})
-    events = check_net.run_and_judge(ctx, "inrange", None, "Trace_InRange", extra_args=["--n", n], own={"inrange"}, known=known)
+    events = check_net.run_and_judge(ctx, "inrange", None, "Trace_InRange", extra_args=["--n", n], own={"inrange", "advertised"}, known=known)
     t = f = 0
     for e in events:
         if e.get("ev") == "inrange":
@@ -16,5 +16,13 @@ def run(ctx):
             if ctx.evaluations % 50 == 0:
                 ctx.distinct.add(vlib.digest([e["node"], e["radius"], e["id"]]))
     ctx.cov["inrange_true"], ctx.cov["inrange_false"] = t, f
+    adv = {}
+    for e in events:
+        if e.get("ev") == "advert":
+            ctx.evaluations += 1
+            adv[e["via"]] = adv.get(e["via"], 0) + 1
+    ctx.cov["advertised_radius_observations"] = adv
+    if not ctx.violations and (sum(adv.values()) < 40 or "ping" not in adv):
+        raise vlib.NoVerdict("vacuity guard: the node's advertised radius was hardly observed: %s" % adv)
     if (t == 0 or f == 0) and not ctx.violations:
         raise vlib.NoVerdict("vacuity guard: in-range triples all gave the same answer")
